@@ -580,4 +580,49 @@ theorem rstripSep_rel (x : Str) (h : startsWith x ['/'] = false) : startsWith (r
     subst ht
     simpa [startsWith, List.isPrefixOf] using h
 
+/-! ### histories of applications -/
+
+theorem Deny.app_assoc (a b c : Deny) : (a.app b).app c = a.app (b.app c) := by
+  simp [Deny.app, List.append_assoc]
+
+/-- a fold whose step only appends is the start state followed by what the fold produces from nothing -/
+theorem foldl_app {α : Type} (step : Deny → α → Deny) (hs : ∀ d x, step d x = d.app (step {} x)) :
+    ∀ (xs : List α) (d : Deny), xs.foldl step d = d.app (xs.foldl step {}) := by
+  intro xs
+  induction xs with
+  | nil => intro d; cases d; simp [Deny.app]
+  | cons x xs ih =>
+    intro d
+    simp only [List.foldl_cons]
+    rw [ih (step d x), ih (step {} x), hs d x, Deny.app_assoc]
+
+theorem reg_app (isSpec : Str → Bool) (cmd : Bool) (d : Deny) (s : Str) :
+    d.reg isSpec cmd s = d.app (Deny.reg isSpec cmd {} s) := by
+  cases d
+  unfold Deny.reg Deny.app
+  cases isSpec s <;> cases cmd <;> simp
+
+theorem compStep_app (isComp : Str → Bool) (d : Deny) (c : Str) : compStep isComp d c = d.app (compStep isComp {} c) := by
+  cases d
+  unfold compStep Deny.app
+  cases isComp c <;> simp
+
+theorem applyBlacklistFrom_nil (isSpec isComp : Str → Bool) (files commands components : List Str) :
+    applyBlacklistFrom isSpec isComp {} files commands components = applyBlacklist isSpec isComp files commands components := by
+  rfl
+
+theorem applyBlacklistFrom_app (isSpec isComp : Str → Bool) (d0 : Deny) (files commands components : List Str) :
+    applyBlacklistFrom isSpec isComp d0 files commands components
+      = d0.app (applyBlacklist isSpec isComp files commands components) := by
+  rw [← applyBlacklistFrom_nil]
+  unfold applyBlacklistFrom
+  have h1 := foldl_app (fun d s => d.reg isSpec false s) (fun d x => reg_app isSpec false d x)
+  have h2 := foldl_app (fun d s => d.reg isSpec true s) (fun d x => reg_app isSpec true d x)
+  have h3 := foldl_app (compStep isComp) (compStep_app isComp)
+  rw [h1 files d0, h2 commands (d0.app _), h3 components ((d0.app _).app _)]
+  rw [h2 commands (List.foldl (fun d s => Deny.reg isSpec false d s) {} files)]
+  rw [h3 components (Deny.app (List.foldl (fun d s => Deny.reg isSpec false d s) {} files)
+        (List.foldl (fun d s => Deny.reg isSpec true d s) {} commands))]
+  simp only [Deny.app_assoc]
+
 end IV.Paths
